@@ -315,6 +315,18 @@ impl CommonTemplate for OptionsTemplate {
 pub struct FieldParser;
 
 impl FieldParser {
+    /// Fewest bytes one record of a template can occupy: a fixed-length field takes its
+    /// length, a variable-length field at least its one byte length prefix.
+    fn min_record_len(fields: &[TemplateField]) -> usize {
+        fields.iter().fold(0usize, |len, field| {
+            len.saturating_add(if field.field_length == 65535 {
+                1
+            } else {
+                usize::from(field.field_length)
+            })
+        })
+    }
+
     /// Takes a byte stream and a cached template.
     /// Fields get matched to static types.
     /// Returns BTree of IPFix Types & Fields or IResult Error.
@@ -326,8 +338,9 @@ impl FieldParser {
         let mut fields = vec![];
         let mut remaining = i;
 
-        // One iteration per record; stops when what is left is shorter than the
-        // record just parsed (the rest is padding) or a record consumed nothing.
+        // One iteration per record; stops when what is left is shorter than any record
+        // of this template can be (the rest is padding) or a record consumed nothing.
+        let min_record_len = Self::min_record_len(template.get_fields());
         loop {
             let (rest, total_taken) = template.get_fields().iter().enumerate().try_fold(
                 (remaining, 0usize),
@@ -342,7 +355,7 @@ impl FieldParser {
             )?;
             remaining = rest;
 
-            if total_taken == 0 || remaining.len() < total_taken {
+            if total_taken == 0 || remaining.len() < min_record_len.min(total_taken) {
                 break;
             }
         }
